@@ -4,14 +4,21 @@
     Writer (family gds_write; reading Gds/KernelsInstGdsWrite.v, proofs Gds/KernelsTieGdsWrite_proofs.v): every provided method of
     `trait Encode` hands to the required method `encode_record` exactly the records of the model's [flat_*] functions, in the
     model's order, stopping at its first error, whatever the implementor's state [S] and `encode_record` [emit] are; with
-    `encode_record` = [enc_record] appended to a byte vector the whole of `encode_lib` is [write_lib]. *)
+    `encode_record` = [enc_record] appended to a byte vector the whole of `encode_lib` is [write_lib].
+    Reader, record level (family gds_read; reading Gds/KernelsInstGdsRead.v with MONADIC SELF, the bytes not yet read being the state
+    of the effect; proofs Gds/KernelsTieGdsRead_proofs.v): `read_record_header`, `read_record_content` (all 49 arms: which typed
+    read, which length, which elements of the vector go to which field of the variant) and `read_record` are [read_header],
+    [read_content], [read_record] of Gds/GdsRead.v, the `GdsError` variant apart; byte-level IO is external. *)
 From Coq Require Import ZArith Bool List.
 From L21 Require Import Base.KernelOps Base.KernelOpsX Base.Outcome.
 From L21 Require Import Gds.GdsData Gds.GdsRecord Gds.GdsWrite Gds.KernelsInstGdsWrite.
 From L21 Require Gds.KernelsTieGdsWrite_proofs.
+From L21 Require Gds.GdsRead Gds.KernelsInstGdsRead Gds.KernelsTieGdsRead_proofs.
 Import ListNotations.
 Local Open Scope Z_scope.
 Module W := Gds.KernelsTieGdsWrite_proofs.
+Module RI := Gds.KernelsInstGdsRead.
+Module R := Gds.KernelsTieGdsRead_proofs.
 
 Section Writer.
 Context {S : Type} (emit : S -> record -> gres S).
@@ -47,6 +54,20 @@ Proof. exact W.tie_flatten_vec. Qed.
 Theorem Ktie_write_lib : forall l, lib_len_ok l -> g_encode_lib W.emit_bytes [] l = write_lib l.
 Proof. exact W.tie_write_lib. Qed.
 
+(** * the reader, record level *)
+Theorem Ktie_valid : forall r bs, RI.g_valid r bs = Ok (rtype_valid r, bs).
+Proof. exact R.tie_valid. Qed.
+(** the two bytes of the length are bytes *)
+Theorem Ktie_read_record_header : forall bs, forallb u8b (firstn 2 bs) = true ->
+  RI.g_read_record_header bs = RI.ounit (omap R.hdr_of (GdsRead.read_header bs)).
+Proof. exact R.tie_read_record_header. Qed.
+Theorem Ktie_read_record_content : forall rt dt len bs,
+  RI.as_rec (RI.g_read_record_content rt dt len bs) = RI.ounit (GdsRead.read_content true rt dt len bs).
+Proof. exact R.tie_read_record_content. Qed.
+Theorem Ktie_read_record : forall bs, forallb u8b (firstn 2 bs) = true ->
+  RI.as_rec (RI.g_read_record bs) = RI.ounit (GdsRead.read_record true bs).
+Proof. exact R.tie_read_record. Qed.
+
 Print Assumptions Ktie_encode_strans.
 Print Assumptions Ktie_encode_boundary.
 Print Assumptions Ktie_encode_path.
@@ -61,3 +82,7 @@ Print Assumptions Ktie_encode_struct.
 Print Assumptions Ktie_encode_lib.
 Print Assumptions Ktie_flatten_vec.
 Print Assumptions Ktie_write_lib.
+Print Assumptions Ktie_valid.
+Print Assumptions Ktie_read_record_header.
+Print Assumptions Ktie_read_record_content.
+Print Assumptions Ktie_read_record.
